@@ -1,5 +1,12 @@
-"""C12: syntax flags accept exactly the documented grammar (STANDARD format so far)."""
-from ._util import H, KGroup
+"""C12: syntax flags accept exactly the documented grammar."""
+from ._util import H, KGroup, pick
+
+FFLAGS = ["f_required_integer_digits_4", "f_required_fraction_digits_4", "f_no_positive_mantissa_sign_4", "f_required_mantissa_sign_4", "f_no_exponent_notation_4",
+          "f_no_positive_exponent_sign_4", "f_required_exponent_sign_4", "f_no_exponent_without_fraction_4", "f_no_special_4", "f_case_sensitive_special_4",
+          "f_no_float_leading_zeros_4", "f_required_exponent_notation_4", "f_case_sensitive_exponent_4", "f_required_digits_5", "f_not_required_exponent_digits_4",
+          "f_req_exp_sign_req_notation_5"]
+IFLAGS = ["int_no_leading_zeros_i32_4", "int_no_leading_zeros_u8_3", "int_no_positive_sign_i32_4", "int_required_sign_i32_4", "int_required_sign_nlz_i16_4",
+          "p2::int_prefix_x_i32_5", "p2::int_prefix_x_cased_i32_5", "p2::int_suffix_h_i32_4", "p2::int_prefix_suffix_u32_5", "p2::int_prefix_nlz_i32_5"]
 
 
 def plan(tier, seed):
@@ -9,13 +16,20 @@ def plan(tier, seed):
     groups = [KGroup("D", fl, timeout=900 if tier == "quick" else 7200, jobs=6, mem_gb=10, stubbing=True, label="STANDARD floats")]
     ints = [H("c04::k1_%s_4" % t, "STANDARD integer grammar vs reference scan", "arbitrary bytes len<=4") for t in ("u8", "i16", "u32", "i64")]
     groups.append(KGroup("D", ints, timeout=900, jobs=6, mem_gb=8, label="STANDARD integers"))
-    if tier == "thorough":
+    FD = "one syntax flag set: accept/reject, consumed count and digit decomposition vs the flag-parameterised reference recogniser (alphabet + - . 0 1 9 e E x X h n a N i f + one arbitrary byte)"
+    if tier == "quick":
+        ff = ["f_no_special_4", "f_required_exponent_notation_4", "f_no_float_leading_zeros_4"] + pick([f for f in FFLAGS if f not in ("f_no_special_4", "f_required_exponent_notation_4", "f_no_float_leading_zeros_4")], seed, 3)
+        ii = ["int_no_leading_zeros_i32_4", "int_required_sign_i32_4", "p2::int_prefix_x_i32_5", "p2::int_suffix_h_i32_4"]
+    else:
+        ff, ii = FFLAGS, IFLAGS
         groups.append(KGroup("F", fl[:4], timeout=7200, jobs=6, mem_gb=10, stubbing=True, label="STANDARD floats, format feature on"))
+    groups.append(KGroup("PF", [H("c12::" + f, FD, "len<=%s" % f[-1]) for f in ff], timeout=1500, jobs=8, mem_gb=10, stubbing=True, label="float syntax flags"))
+    groups.append(KGroup("PF", [H("c12::" + f, "integer syntax flags vs documented grammar [sign][0 prefix]digits[suffix]", "len<=%s" % f[-1]) for f in ii], timeout=1500, jobs=6, mem_gb=8, label="integer syntax flags"))
     return {
         "kani": groups,
         "functions_encoded": ["lexical_parse_float::parse::parse_number (through the public API)", "lexical_parse_integer::algorithm"],
-        "bounds": ["STANDARD format only; arbitrary bytes up to the stated length"],
-        "outside_claim": ["non-STANDARD flag combinations and prebuilt language formats (harnesses not built yet)", "inputs longer than the bound"],
+        "bounds": ["STANDARD format: arbitrary bytes up to the stated length, error kind and index asserted", "each syntax flag alone plus a few documented interaction pairs (6 seeded + core in quick, all 16 float / 10 integer sets in thorough): strings over the number alphabet, accept/reject + value"],
+        "outside_claim": ["flag combinations not listed (2^18 monomorphisations cannot be compiled)", "prebuilt language formats", "float base prefix/suffix", "inputs longer than the bound", "error kinds for non-STANDARD flag sets"],
         "stubs_and_assumes": ["numeric back end stubbed; the stub exposes mantissa (low bits) and exponent (low 6 bits) so 'has the value of its digits' is checked on the decomposition"],
         "assumptions": ["reference recogniser kani/src/refs.rs::ref_float with STD_GRAM"],
     }
